@@ -37,14 +37,23 @@ OVERHEAD = 9
 SIZES = (50, 128, 206, 480, 1024, 1476)
 
 
+def _payload_for_service_data(total):
+    """payload length whose ConfirmedPrivateTransfer service data is `total` octets (vendor 999, one-octet service number)"""
+    for n in range(max(0, total - 16), total):
+        from bv.refs.segmon import private_transfer_data
+        if len(private_transfer_data(1, b"\0" * n)) == total:
+            return n
+    raise ValueError(total)
+
+
 def rq(k, seg=50):
     """request payload length that yields exactly k full segments (6-octet segment header)"""
-    return k * (seg - 6) - OVERHEAD
+    return _payload_for_service_data(k * (seg - 6))
 
 
 def rs(k, seg=50):
     """response payload length that yields exactly k full segments (5-octet segment header)"""
-    return k * (seg - 5) - OVERHEAD
+    return _payload_for_service_data(k * (seg - 5))
 
 
 # ----------------------------------------------------------------------------- judging
@@ -153,11 +162,16 @@ def sweep_cases(tier):
 
 
 def long_cases(tier):
+    """Fault-free transfers around and beyond 256 segments: exact segment counts x windows (a sender that mistakes an
+    early ack for the final one shows only when (count - 1) mod 256 is a multiple of the window)."""
     out = []
-    ns = (257,) if tier == "quick" else (255, 256, 257, 300)
-    for n in ns:
-        for reqs in ([(rq(n), 0)], [(0, rs(n))]):
-            for w in ((4,) if tier == "quick" else (1, 4, 127)):
+    if tier == "quick":
+        plan = [(257, (1, 2, 4)), (258, (1, 4)), (260, (1, 3))]
+    else:
+        plan = [(n, (1, 2, 3, 4, 8)) for n in (255, 256, 257, 258, 259, 260, 261, 300, 301, 513)] + [(300, (127,))]
+    for n, ws in plan:
+        for w in ws:
+            for reqs in ([(rq(n), 0)], [(0, rs(n))]):
                 out.append(Cfg(c={"window": w, "maxsegs": 65}, s={"window": w, "maxsegs": 65}, reqs=reqs, label="long%d" % n).to_json())
     return out
 
@@ -169,7 +183,7 @@ def a_shard(item, deadline):
             acc.cap("A: deadline inside the fault-free sweep")
             break
         cfg = Cfg.from_json(cfg_json)
-        steps = 400 if (cfg.label or "").startswith("long") is False else 4000
+        steps = 400 if (cfg.label or "").startswith("long") is False else 8000
         sysm, points = run_execution(cfg, (), max_steps=steps, want_states=acc.states if steps == 400 else None)
         record(acc, cfg_json, sysm, points, "clean")
     return acc
@@ -261,7 +275,7 @@ def bc_subtree(item, deadline):
     long_ = (cfg.label or "").startswith("long")
 
     def run(prefix):
-        return run_execution(cfg, prefix, max_steps=6000 if long_ else 400, want_states=None if long_ else acc.states)
+        return run_execution(cfg, prefix, max_steps=8000 if long_ else 400, want_states=None if long_ else acc.states)
 
     def on_exec(sysm, points, prefix):
         record(acc, cfg_json, sysm, points, mode)
@@ -336,7 +350,7 @@ def run(tier, seed, deadline):
 def replay(case):
     vclock.install()
     cfg = Cfg.from_json(case["cfg"])
-    steps = 6000 if (cfg.label or "").startswith("long") else 400
+    steps = 8000 if (cfg.label or "").startswith("long") else 400
     sysm, points = run_execution(cfg, tuple(case["choices"]), max_steps=steps)
     got, problems = judge(sysm, case["mode"])
     text = "cfg=%r\nschedule=%r\nfaults=%r\noutcomes=%r\nwire=%r\nswallowed=%r\nproblems=%r" % (
